@@ -23,12 +23,19 @@ Theorem C02_cutoff_scaling_B : forall (fc : @c32 CB) (r : @cnum CB),
   @mi_f_cutoff CB fc r = if @cleb CB (@c_lit CB 1 0 1 1) r then fc else @mul32 CB fc (@to32 CB r).
 Proof. intros. reflexivity. Qed.
 
+(** the public constructors hand their own resample_ratio (not a bound of the adjustable range, not
+    a derived value) to make_interpolator: the anti-aliasing cutoff is designed for the ratio the
+    resampler starts with (regenerated from SincFixedIn::new / SincFixedOut::new) *)
+Theorem C02_ctor_ratio_to_table : forall C (r : @cnum C), @si_new_mi_ratio C r = r /\ @so_new_mi_ratio C r = r.
+Proof. intros. split; reflexivity. Qed.
+
 Theorem C02_source_regions :
   src_hash_windows_rs = "e55e5fc09b4710ef3e62fea2b571dedf"%string /\
-  src_hash_sinc_rs = "18e3e78bb9f80e27247b3dbbc99c08a0"%string /\
+  src_hash_sinc_rs = "836f229828bb0600c659cb0ef072f0bb"%string /\
   src_hash_fft_core = "b42bed0dd611432617a6cd35a406882c"%string.
 Proof. repeat split; reflexivity. Qed.
 
 Print Assumptions C02_cutoff_scaling_R.
 Print Assumptions C02_cutoff_scaling_B.
+Print Assumptions C02_ctor_ratio_to_table.
 Print Assumptions C02_source_regions.
